@@ -491,8 +491,20 @@ def discoRun (j : Json) : Except String Json := do
     | .ok "advance" => pure (Disco.Ev.advance (← (a[1]?.getD Json.null).getNat?))
     | .ok "reboot" => pure Disco.Ev.reboot
     | .ok "request-bad-reply" => pure Disco.Ev.requestBadReply
+    | .ok "request-slow" => pure Disco.Ev.request
     | _ => throw "bad event"
-  let (_, trace) := Disco.run ((j.getObjValAs? Bool "auth").toOption.getD true) ctx (Disco.init eid (← getNat j "boots") (← getNat j "start")) evs
+  let auth := (j.getObjValAs? Bool "auth").toOption.getD true
+  -- events: ordinary ones go through `Disco.step`; ["request-slow", lat] through `Disco.requestSlow`
+  let slow ← evsJ.toList.mapM fun e => do
+    let a ← e.getArr?
+    match (a[0]?.getD Json.null).getStr? with
+    | .ok "request-slow" => pure (some (← (a[1]?.getD Json.null).getNat?))
+    | _ => pure none
+  let (_, trace) := (evs.zip slow).foldl (fun (acc : Disco.St × List Disco.Wire) (p : Disco.Ev × Option Nat) =>
+      let r := match p.2 with
+        | some lat => Disco.requestSlow lat auth ctx acc.1
+        | none => Disco.step auth ctx acc.1 p.1
+      (r.1, acc.2 ++ r.2)) (Disco.init eid (← getNat j "boots") (← getNat j "start"), [])
   let wj : Disco.Wire → Json
     | .probe => toJson (#[toJson "probe"] : Array Json)
     | .req e c b t iw => toJson (#[toJson "req", toJson (toHex e), toJson (toHex c), toJson b, toJson t, toJson iw] : Array Json)
